@@ -675,7 +675,7 @@ var descLayouts = func() []layout {
 // ---------------------------------------------------------------- the plan
 
 type kase struct {
-	kind string // probe table refuse descriptor every lists trans pinned reuse seeded longgap
+	kind string // probe table refuse descriptor every lists trans pinned reuse zonenames zonereject seeded longgap
 	a, b int
 	zone string
 	tr   trans
@@ -794,6 +794,13 @@ func plan() ([]kase, []string) {
 	for j := 0; j < mon.Pick(320, 6000); j++ {
 		ks = append(ks, kase{kind: "reuse", a: j})
 	}
+	dbNames, doubtful := zoneNameLists()
+	for j := 0; j*zoneNameChunk < len(dbNames); j++ {
+		ks = append(ks, kase{kind: "zonenames", a: j})
+	}
+	for j := 0; j*zoneRejectChunk < len(doubtful); j++ {
+		ks = append(ks, kase{kind: "zonereject", a: j})
+	}
 	for j := 0; j < mon.Pick(120, 2000); j++ {
 		ks = append(ks, kase{kind: "longgap", a: j, zone: zones[(j*7)%len(zones)]})
 	}
@@ -807,16 +814,19 @@ func TestCheck(t *testing.T) {
 	defer rec.Close()
 	hangKnown = mon.Resume() > 0 && mon.Only() < 0
 	rec.Note("rule", "Parse: for every option-set layout (standard/5, seconds/6, seconds-optional/6 and /5, dow-optional/5 and /4, seconds+dow-optional/6 and /5, both without descriptors) and every field it contains, every single term is enumerated: every start token (*, ?, each value, each month/day name in three casings) alone, with every step 0..range+2,100,1000, and combined with every end token and every step (inverted ranges and zero steps are expected refusals); plus seeded lists, descriptors, TZ=/CRON_TZ= prefixes and the refusal table (field counts, min-1/max+1 in every position, non-numeric tokens, unknown names/descriptors/zones, descriptors when disabled). A parse case is one (layout, expression); enumerated without repetition. Its six value sets and the two unrestricted-day flags are compared with a reference parser written from doc.go. "+
-		"Next: one case is (option set, expression, zone, start instant); the expected answer is the earliest matching whole second found by an independent search over the zone's constant-offset periods (Time.ZoneBounds + integer calendar arithmetic on offset-shifted seconds). For every zone of the tier and every offset change 1968-2037: start instants {-2d,-1d,-1h,-1s,0,+1s,+1h} around it and one seeded instant, each with seeded schedules (well-known, built from the wall-clock readings around the change, or from the grammar with sparse day fields); for every transition that removes or repeats local 00:00 or shifts by a non-whole hour additionally schedules with restricted day fields pinned ON the transition day and the three days after it (noon, each minute 00:00-00:29, the readings around the switch), started 1-5 days earlier; SCHEDULE RE-USE: one parsed Schedule object (prefix-less expression, descriptor, @every, some with a TZ prefix as control) answers eight questions in a row whose instants live in different locations (UTC, fixed +05:30 / -03:45, DST zones, time.Local) and then the first question again, every answer judged against the reference for that instant's zone exactly like a fresh parse, the schedule value compared before/after (observed), then a fresh object is asked from 2-4 goroutines at once (this part also runs in an extra -race build that executes only the re-use cases); plus seeded (zone, instant, schedule) triples, Feb-29 / impossible-date schedules for the five-year horizon, descriptors and @every. Non-trivial = the answer is not simply the next second (the search had to skip at least one second) or no answer exists; distinct = distinct (options, expression, zone, instant).")
+		"Next: one case is (option set, expression, zone, start instant); the expected answer is the earliest matching whole second found by an independent search over the zone's constant-offset periods (Time.ZoneBounds + integer calendar arithmetic on offset-shifted seconds). For every zone of the tier and every offset change 1968-2037: start instants {-2d,-1d,-1h,-1s,0,+1s,+1h} around it and one seeded instant, each with seeded schedules (well-known, built from the wall-clock readings around the change, or from the grammar with sparse day fields); for every transition that removes or repeats local 00:00 or shifts by a non-whole hour additionally schedules with restricted day fields pinned ON the transition day and the three days after it (noon, each minute 00:00-00:29, the readings around the switch), started 1-5 days earlier; SCHEDULE RE-USE: one parsed Schedule object (prefix-less expression, descriptor, @every, some with a TZ prefix as control) answers eight questions in a row whose instants live in different locations (UTC, fixed +05:30 / -03:45, DST zones, time.Local) and then the first question again, every answer judged against the reference for that instant's zone exactly like a fresh parse, the schedule value compared before/after (observed), then a fresh object is asked from 2-4 goroutines at once (this part also runs in an extra -race build that executes only the re-use cases); ZONE NAMES: every name (aliases included) of the zone database time.LoadLocation resolves, with both TZ= and CRON_TZ=, must be accepted and Next must agree with the reference read in time.LoadLocation(name) at three instants; a family of doubtful names (every 1-3 character string over the characters of the two prefixes, doubled prefixes, names with trailing garbage, truncated names, the empty name) must be accepted iff time.LoadLocation accepts the exact text between the first '=' and the first space; plus seeded (zone, instant, schedule) triples, Feb-29 / impossible-date schedules for the five-year horizon, descriptors and @every. Non-trivial = the answer is not simply the next second (the search had to skip at least one second) or no answer exists; distinct = distinct (options, expression, zone, instant).")
 	rec.Note("require", []string{"parse.ok.sets_equal", "parse.refused.wrong-field-count", "parse.refused.out-of-range", "parse.refused.non-numeric", "parse.refused.inverted-range",
 		"parse.refused.zero-step", "parse.refused.unknown-name", "parse.refused.unknown-descriptor", "parse.refused.unknown-zone", "parse.refused.descriptor-disabled",
 		"next.search_crosses.ordinary", "next.search_crosses.midnight-gap", "next.search_crosses.non-hour-shift", "next.search_crosses.midnight-repeat",
 		"next.search_crosses.off-hour-boundary", "next.search_crosses.multi-hour-shift", "next.skipped_day_probe", "reference.self_checked_by_brute_force", "next.pinned_on_transition_day", "reuse.questions_judged", "reuse.concurrent_questions", "reuse.first_question_repeated", "reuse.every_questions",
+		"zone_names.database_names_checked", "zone_names.database_names_starting_with_a_prefix_character", "zone_names.next_checked_where_offset_differs_from_UTC",
+		"zone_names.doubtful_family.time.LoadLocation_rejects", "zone_names.doubtful_family.time.LoadLocation_accepts",
 		"next.either_day_rule", "next.expected_zero", "next.match_more_than_a_year_away", "next.t_in_other_location", "every.checked", "descriptor.sets_checked"})
 	rec.Note("known_finding_matching", "a mismatch keeps a recorded finding's signature (next-mismatch/dst/<class>) only if its transition class is one of the five recorded ones AND kit's answer equals the answer of a frozen golden copy of the pinned Next algorithm for that very input (frozen_test.go); any other wrong answer in such a class is next-mismatch/dst/<class>/answer-differs-from-recorded-finding, which no finding lists; counters next.mismatch.* say how often each path was taken")
 	rec.Note("tolerances", "a match later than t+1825 days but not later than the end of calendar year Y+5 may be returned or not; the unrestricted flag of '*/1' and of lists containing '*' is not judged; '?' outside the day fields, empty list items, '*-5' and similar shapes are not judged; the location of the returned Time is observed, not judged")
 	ks, zones := plan()
 	rec.Note("zones", len(zones))
+	rec.Note("zone_name_source", fmt.Sprintf("%s: %d names; doubtful-name family: %d names", zoneNamesSource, len(zoneNamesAll), len(zoneRejectNames)))
 	for idx, k := range ks {
 		if !mon.Mine(idx) || (raceEnabled && k.kind != "reuse") {
 			continue
@@ -841,6 +851,10 @@ func TestCheck(t *testing.T) {
 			runPinned(idx, k)
 		case "reuse":
 			runReuse(idx, k, zones)
+		case "zonenames":
+			runZoneNames(idx, k)
+		case "zonereject":
+			runZoneReject(idx, k)
 		case "seeded":
 			runSeeded(idx, k)
 		case "longgap":
@@ -1551,6 +1565,146 @@ func runReuseEvery(idx int, rng *mon.RNG, zones []string) {
 		}
 		if !reflect.DeepEqual(before, p.ks) {
 			rec.Count("reuse.schedule_value_changed_by_Next(observed,judged only through wrong answers)", 1)
+		}
+	}
+}
+
+// ---------------------------------------------------------------- zone names
+
+var (
+	zoneNamesOnce   sync.Once
+	zoneNamesAll    []string
+	zoneNamesSource string
+	zoneRejectNames []string
+)
+
+const trimAlphabet = "CRON_TZ=" // the characters of the two prefixes
+
+// zoneNameLists: every name of the zone database, and the doubtful-name family.
+// Whether a doubtful name is to be accepted is never decided here: the
+// reference asks time.LoadLocation about the exact text between the first '='
+// and the first space.
+func zoneNameLists() ([]string, []string) {
+	zoneNamesOnce.Do(func() {
+		zoneNamesAll, zoneNamesSource = everyZoneName()
+		rej := []string{"ZZZ", "CROZ", "TZ=UTC", "CRON_TZ=Asia/Tokyo", "=UTC", "", "N", "_", "TZ", "CRON_TZ", "CRON", "TZ=NZ", "CRON_TZ=CRON_TZ=UTC", "TZ=TZ=TZ=Cuba",
+			"NTZ=UTC", "UTCx", "UTC,", "UTC=", "utc", "Utc", "Asia/Tokyo/x", "Asia/Tokyo/", "Asia/Tokyo.", "Asia/Tokyox", "Asia//Tokyo", "Asia", "../UTC", "Asia/../UTC", "/usr/share/zoneinfo/UTC",
+			"NZ-CHATT", "NZ-", "Zulu1", "ZuluZ", "ROCK", "CubaX", "Cuba/", "Turkey_", "CETT", "CCET", "CST6CDTT", "NNZ", "ZNZ", "NZNZ", "ROCROC", "TZNZ", "CRON_TZNZ", "=NZ", "==", "=", "N=Z"}
+		// every string of one to three characters of the prefixes' alphabet (NZ and ROC are among them)
+		var alpha []byte
+		seen := map[byte]bool{}
+		for i := 0; i < len(trimAlphabet); i++ {
+			if !seen[trimAlphabet[i]] {
+				seen[trimAlphabet[i]] = true
+				alpha = append(alpha, trimAlphabet[i])
+			}
+		}
+		for _, a := range alpha {
+			rej = append(rej, string([]byte{a}))
+			for _, b := range alpha {
+				rej = append(rej, string([]byte{a, b}))
+				for _, c := range alpha {
+					rej = append(rej, string([]byte{a, b, c}))
+				}
+			}
+		}
+		// garbage derived from real names that begin with a character of the alphabet
+		n := 0
+		for _, name := range zoneNamesAll {
+			if !strings.ContainsRune(trimAlphabet, rune(name[0])) {
+				continue
+			}
+			if n++; n > 60 {
+				break
+			}
+			rej = append(rej, name+"x", name+"/", name[1:], "Z"+name, "TZ="+name, name+"="+name)
+		}
+		dedup := map[string]bool{}
+		for _, r := range rej {
+			if !dedup[r] && !strings.ContainsAny(r, " \t") {
+				dedup[r] = true
+				zoneRejectNames = append(zoneRejectNames, r)
+			}
+		}
+	})
+	return zoneNamesAll, zoneRejectNames
+}
+
+const zoneNameChunk, zoneRejectChunk = 12, 80
+
+var zoneBodies = [][6]string{
+	{"0", "0", "12", "*", "*", "*"},
+	{"0", "30", "*", "*", "*", "*"},
+	{"0", "0", "0", "*", "*", "?"},
+	{"0", "15", "6", "1", "*", "*"},
+	{"0", "45", "23", "*", "*", "MON"},
+	{"0", "0", "*/6", "*", "*", "*"},
+}
+
+// zoneNameCase asks kit to parse prefix+name+" "+body and, if the documented
+// meaning accepts the name, compares Next with the reference read in
+// time.LoadLocation(name).
+func zoneNameCase(idx int, rng *mon.RNG, prefix, name string, instants int) {
+	l := pickLayout(rng)
+	body := fit(l, zoneBodies[rng.Intn(len(zoneBodies))])
+	if l.o.desc && rng.Chance(1, 5) {
+		body = rng.PickStr("@daily", "@hourly", "@weekly")
+	}
+	spec := prefix + name + " " + body
+	rec.Step(fmt.Sprintf("zone name options=%s spec=%q", l.o.name, spec))
+	p, ok := checkParse(idx, l.o, spec)
+	if !ok || p.rs.every {
+		return
+	}
+	z := getZone(p.rs.zone)
+	if z == nil {
+		rec.Inconclusive(idx, "zone "+p.rs.zone+" accepted by time.LoadLocation for the reference but not loadable for the search", nil)
+		return
+	}
+	for i := 0; i < instants; i++ {
+		t := seededInstant(rng, z)
+		if rng.Bool() {
+			t = t.In(panelLoc(rng))
+		}
+		if checkNext(idx, p, z, t) {
+			rec.Count("zone_names.next_checked", 1)
+			if offsetAt(z.loc, t.Unix()) != 0 {
+				rec.Count("zone_names.next_checked_where_offset_differs_from_UTC", 1)
+			}
+		}
+	}
+}
+
+func runZoneNames(idx int, k kase) {
+	names, _ := zoneNameLists()
+	rng := mon.NewRNG("c04-zonenames", idx)
+	for i := k.a * zoneNameChunk; i < (k.a+1)*zoneNameChunk && i < len(names); i++ {
+		for _, prefix := range []string{"TZ=", "CRON_TZ="} {
+			zoneNameCase(idx, rng, prefix, names[i], 3)
+			rec.Count("zone_names.database_names_checked", 1)
+			if strings.ContainsRune(trimAlphabet, rune(names[i][0])) {
+				rec.Count("zone_names.database_names_starting_with_a_prefix_character", 1)
+			}
+		}
+	}
+}
+
+func runZoneReject(idx int, k kase) {
+	_, names := zoneNameLists()
+	rng := mon.NewRNG("c04-zonereject", idx)
+	for i := k.a * zoneRejectChunk; i < (k.a+1)*zoneRejectChunk && i < len(names); i++ {
+		name := names[i]
+		if name == "Local" {
+			continue
+		}
+		_, err := time.LoadLocation(name)
+		for _, prefix := range []string{"TZ=", "CRON_TZ="} {
+			if err != nil {
+				rec.Count("zone_names.doubtful_family.time.LoadLocation_rejects", 1)
+			} else {
+				rec.Count("zone_names.doubtful_family.time.LoadLocation_accepts", 1)
+			}
+			zoneNameCase(idx, rng, prefix, name, 2)
 		}
 	}
 }
